@@ -17,7 +17,9 @@ import (
 	"net/http/httptest"
 	"net/netip"
 	"os"
+	"reflect"
 	"runtime"
+	"strconv"
 	"strings"
 	"syscall"
 	"testing"
@@ -156,7 +158,10 @@ func (t *scriptTask) Run(ctx context.Context) error {
 			// The instant a task observes cancellation it asks whether the
 			// process is terminating or reloading.
 			e := verifsim.Event{K: "script.cancelled", Node: t.n.id, S: t.spec.Name}
-			if t.term() {
+			switch {
+			case t.term == nil:
+				e.V = -1 // the predicate could not be reached in this build (zz_sim_nodirect_test.go)
+			case t.term():
 				e.V = 1
 			}
 			w.log.Add(e)
@@ -265,56 +270,85 @@ func (n *wnode) start(ns NodeSpec, info *runInfo) *daemon {
 	d.handler = crhttp.NewHandler(ll, state, *cfg, promhttp.HandlerFor(d.reg, promhttp.HandlerOpts{}))
 
 	s := NewServer(cctx)
-	s.w = netstate.NewWatcherFromSource(n.watchSource)
+	// The harness reaches into a few unexported fields of the daemon's types. It
+	// finds them by their TYPE, not by their name (a renamed field must not keep
+	// the checks from building): the link watcher of the Server, the Dialer of an
+	// Advertiser or Monitor. Interface names and the debug server's address are
+	// read off the tasks' String(), which the daemon itself publishes in its
+	// status notifications.
+	if !setFieldOfType(s, netstate.NewWatcherFromSource(n.watchSource)) {
+		panic("sim: Server has no *netstate.Watcher field")
+	}
 
 	var tasks []Task
 	if !ns.OnlyScript {
 		tasks = s.BuildTasks(*cfg, d.handler)
 	}
+	var term func() bool
 	for i, t := range tasks {
 		info.tasks[n.id] = append(info.tasks[n.id], t.String())
+		str := t.String()
 		switch t := t.(type) {
 		case *Advertiser:
 			info.taskKind[n.id] = append(info.taskKind[n.id], "advertiser")
-			ifc := n.ifaces[t.cfg.Name]
+			name := taskIface(str)
+			ifc := n.ifaces[name]
 			if ifc == nil {
-				panic("sim: config names interface the world lacks: " + t.cfg.Name)
+				panic("sim: config names interface the world lacks: " + name)
+			}
+			dl, ok := fieldOfType[*system.Dialer](t)
+			if !ok {
+				panic("sim: Advertiser has no *system.Dialer field")
 			}
 			if system.SimRealDial {
-				t.dialer.DialFunc = ifc.realDial(t.dialer.DialFunc)
+				dl.DialFunc = ifc.realDial(dl.DialFunc)
 			} else {
-				t.dialer.DialFunc = ifc.dialFunc(system.Advertise)
+				dl.DialFunc = ifc.dialFunc(system.Advertise)
 			}
-			name := t.cfg.Name
+			if f, ok := fieldOfType[func() bool](t); ok && f != nil && term == nil {
+				term = f
+			}
 			t.OnInconsistentRA = func(ours, theirs *ndp.RouterAdvertisement) {
 				w.log.Add(verifsim.Event{K: "inconsistent", Node: n.id, If: name})
 			}
 		case *Monitor:
 			info.taskKind[n.id] = append(info.taskKind[n.id], "monitor")
-			ifc := n.ifaces[t.iface]
+			name := taskIface(str)
+			ifc := n.ifaces[name]
 			if ifc == nil {
-				panic("sim: config names interface the world lacks: " + t.iface)
+				panic("sim: config names interface the world lacks: " + name)
+			}
+			dl, ok := fieldOfType[*system.Dialer](t)
+			if !ok {
+				panic("sim: Monitor has no *system.Dialer field")
 			}
 			if system.SimRealDial {
-				t.dialer.DialFunc = ifc.realDial(t.dialer.DialFunc)
+				dl.DialFunc = ifc.realDial(dl.DialFunc)
 			} else {
-				t.dialer.DialFunc = ifc.dialFunc(system.Monitor)
+				dl.DialFunc = ifc.dialFunc(system.Monitor)
 			}
-			name := t.iface
 			t.OnMessage = func(m ndp.Message) {
 				w.log.Add(verifsim.Event{K: "onmessage", Node: n.id, If: name, S: m.Type().String()})
 			}
-		case *httpTask:
-			info.taskKind[n.id] = append(info.taskKind[n.id], "http")
-			tasks[i] = &stubHTTPTask{addr: t.addr, readyC: make(chan struct{})}
-		case *watcherTask:
-			info.taskKind[n.id] = append(info.taskKind[n.id], "watcher")
 		default:
-			info.taskKind[n.id] = append(info.taskKind[n.id], fmt.Sprintf("%T", t))
+			switch {
+			case strings.HasPrefix(str, "debug HTTP server "):
+				// needs a real TCP listener: replaced by a stub with the same name
+				info.taskKind[n.id] = append(info.taskKind[n.id], "http")
+				addr, _ := strconv.Unquote(strings.TrimPrefix(str, "debug HTTP server "))
+				tasks[i] = &stubHTTPTask{addr: addr, readyC: make(chan struct{})}
+			case str == "link state watcher":
+				info.taskKind[n.id] = append(info.taskKind[n.id], "watcher")
+			default:
+				info.taskKind[n.id] = append(info.taskKind[n.id], fmt.Sprintf("%T", t))
+			}
 		}
 	}
+	if term == nil {
+		term = serverTerminate(s)
+	}
 	for _, st := range ns.Script {
-		tasks = append(tasks, &scriptTask{spec: st, n: n, term: s.t.terminate, readyC: make(chan struct{})})
+		tasks = append(tasks, &scriptTask{spec: st, n: n, term: term, readyC: make(chan struct{})})
 	}
 	for i := range tasks {
 		tasks[i] = recTask{Task: tasks[i], n: n}
@@ -878,4 +912,36 @@ func finish(res *verifsim.Result, info *runInfo) {
 	if verifsim.Dump() {
 		res.Log = info.ev
 	}
+}
+
+// fieldOfType returns the value of the first field of *ptr's struct whose type
+// is exactly T (exported or not).
+func fieldOfType[T any](ptr any) (T, bool) {
+	var zero T
+	v := reflect.ValueOf(ptr)
+	if v.Kind() != reflect.Pointer || v.Elem().Kind() != reflect.Struct {
+		return zero, false
+	}
+	v = v.Elem()
+	want := reflect.TypeOf((*T)(nil)).Elem()
+	for i := 0; i < v.NumField(); i++ {
+		if f := v.Field(i); f.Type() == want {
+			return reflect.NewAt(f.Type(), unsafe.Pointer(f.UnsafeAddr())).Elem().Interface().(T), true
+		}
+	}
+	return zero, false
+}
+
+// setFieldOfType stores val in the first field of *ptr's struct whose type is
+// val's type.
+func setFieldOfType(ptr, val any) bool {
+	v := reflect.ValueOf(ptr).Elem()
+	want := reflect.TypeOf(val)
+	for i := 0; i < v.NumField(); i++ {
+		if f := v.Field(i); f.Type() == want {
+			reflect.NewAt(f.Type(), unsafe.Pointer(f.UnsafeAddr())).Elem().Set(reflect.ValueOf(val))
+			return true
+		}
+	}
+	return false
 }
